@@ -1282,16 +1282,28 @@ static void gen_stmt(Node *node) {
       char *ax = (node->cond->ty->size == 8) ? "%rax" : "%eax";
       char *di = (node->cond->ty->size == 8) ? "%rdi" : "%edi";
 
+      // An immediate operand is 32 bits wide; a larger value goes
+      // through a register.
+      char *si = (node->cond->ty->size == 8) ? "%rsi" : "%esi";
+      long width = n->end - n->begin;
+
       if (n->begin == n->end) {
-        println("  cmp $%ld, %s", n->begin, ax);
+        if (n->begin == (int)n->begin) {
+          println("  cmp $%ld, %s", n->begin, ax);
+        } else {
+          println("  mov $%ld, %s", n->begin, si);
+          println("  cmp %s, %s", si, ax);
+        }
         println("  je %s", n->label);
         continue;
       }
 
       // [GNU] Case ranges
       println("  mov %s, %s", ax, di);
-      println("  sub $%ld, %s", n->begin, di);
-      println("  cmp $%ld, %s", n->end - n->begin, di);
+      println("  mov $%ld, %s", n->begin, si);
+      println("  sub %s, %s", si, di);
+      println("  mov $%ld, %s", node->cond->ty->size == 8 ? width : (long)(unsigned)width, si);
+      println("  cmp %s, %s", si, di);
       println("  jbe %s", n->label);
     }
 
